@@ -270,6 +270,8 @@ def check(repo, rep):
     if sa_ is None:
         rep.unknown('TokenizerWorker.start_all not found')
     else:
+        anyloop = any(e[0] == 'loop-enter' and e[1][0] == 'attr' and e[1][2] in obs_f for l in cx.leaves_of(*sa_) for e in l.effects)
+        rep.ob('F8: start_all starts the observers (a loop over the observer list exists)', anyloop, cx.where(sa_[0], sa_[2]), 'TokenizerWorker.start_all:no-observer-loop')
         for l in cx.leaves_of(*sa_):
             ins = [e for e in l.effects if e[0] == 'loop-enter']
             selfstart = [e for e in l.effects if e[0] == 'call' and e[1] == ('call', ('attr', ('self',), 'start'), (), ())]
